@@ -14,7 +14,9 @@ COQ_CASE_TYPE = "MemoTx.case"
 COQ_BRANCHES = ("MemoTx.case_branches", "MemoTx.n_branches")
 RULE = ("op sequences (gramit / serviceTxGrams / serviceTxGramsOnce / close+open) on the real UDP and UXD PeerMemoer "
         "over a fake socket whose sendto follows a script of kernel results: accept n bytes (0..len and beyond), accept "
-        "all, or raise OSError with one of 19 errnos (4 would-block, 10 unreachable, 5 unexpected); a case is "
+        "all, or raise OSError with one of 19 errnos (4 would-block, 10 unreachable, 5 unexpected); grams are queued as "
+        "bytes, bytearray or memoryview objects and the SAME object is often queued several times to different "
+        "destinations (fan-out), the application's objects must stay unchanged; a case is "
         "non-trivial when >= 2 grams were queued and some send accepted nothing or only part of a gram")
 MODELLED = ["socket.sendto (scripted results: count / OSError(errno))",
             "collections.deque / bytearray slicing (as list operations)",
@@ -33,9 +35,27 @@ def _g(s, d):
     return ["gram", s.encode().hex() if isinstance(s, str) else bytes(s).hex(), d]
 
 
+def _go(s, d, obj, typ):
+    """gram op whose payload is application object number `obj` (same number = the very same Python object)
+    of type typ in bytes | bytearray | memoryview"""
+    return ["gram", s.encode().hex() if isinstance(s, str) else bytes(s).hex(), d, obj, typ]
+
+
 def directed():
     A, B, C = "AAAAAA", "BBBBBB", "CC"
     out = [
+        # fan-out: one bytearray object queued to three destinations, complete sends
+        {"transport": "udp", "ops": [_go(A, 1, 0, "bytearray"), _go(A, 2, 0, "bytearray"), _go(A, 3, 0, "bytearray")] + [["svc"]] * 2, "script": []},
+        # ... with a partial send and a would-block in between
+        {"transport": "uxd", "ops": [_go(A, 1, 0, "bytearray"), _go(A, 2, 0, "bytearray"), _go(B, 1, 1, "bytes"), _go(A, 3, 0, "bytearray")] + [["svc"]] * 6,
+         "script": [["acc", 2], ["acc", 0], ["err", "EAGAIN"], ["acc", 1], ["all"], ["acc", 3]]},
+        # the same object re-queued after it was sent; memoryview and bytes objects shared as well
+        {"transport": "udp", "ops": [_go(A, 1, 0, "bytearray"), ["svc"], _go(A, 2, 0, "bytearray"), ["once"], _go(C, 1, 1, "memoryview"), _go(C, 2, 1, "memoryview"),
+                                     _go(B, 3, 2, "bytes"), _go(B, 1, 2, "bytes")] + [["svc"]] * 4, "script": [["all"], ["acc", 4], ["acc", 1]]},
+        # fan-out with an unreachable destination in the middle
+        {"transport": "uxd", "ops": [_go(A, 1, 0, "bytearray"), _go(A, 2, 0, "bytearray"), _go(A, 3, 0, "bytearray")] + [["svc"]] * 4,
+         "script": [["acc", 3], ["err", "ECONNREFUSED"], ["acc", 5]]},
+    ] + [
         # D24 part 1 (fixed): send accepts nothing on a newly dequeued gram
         {"transport": "udp", "ops": [_g(A, 1), _g(B, 1), ["svc"], ["svc"], ["svc"]], "script": [["acc", 0]]},
         # D24 part 2 (fixed): partial remainder while txgs is empty
@@ -92,12 +112,22 @@ def generate(rng, tier):
         ng = rng.randint(1, 6)
         ops, k = [], 0
         pend = ng
+        share, pool = rng.random() < 0.5, []
         while pend or rng.random() < 0.5:
             r = rng.random()
             if pend and r < 0.45:
                 ln = rng.choice([gl, gl, rng.randint(0, gl)])
                 body = bytes((65 + k) for _ in range(ln)) if rng.random() < 0.7 else bytes(rng.randrange(256) for _ in range(ln))
-                ops.append(["gram", body.hex(), rng.randint(1, 3)]); k += 1; pend -= 1
+                op = ["gram", body.hex(), rng.randint(1, 3)]
+                if share:
+                    if pool and rng.random() < 0.6:          # fan-out: queue an earlier object again, other destination
+                        h, obj, typ = rng.choice(pool)
+                        op = ["gram", h, rng.randint(1, 3), obj, typ]
+                    else:
+                        typ = rng.choice(["bytearray", "bytearray", "bytes", "memoryview"])
+                        op += [len(pool), typ]
+                        pool.append((op[1], op[3], typ))
+                ops.append(op); k += 1; pend -= 1
             elif r < 0.80:
                 ops.append(["svc"])
             elif r < 0.95:
@@ -166,11 +196,19 @@ def run_impl(case):
     t = case["transport"]
     m = _make(t, case["script"])
     excs, left = [], []
+    objs = {}              # application objects: number -> (object, original content)
     for op in case["ops"]:
         left.append(len(m.ls.script))
         try:
             if op[0] == "gram":
-                m.gramit(bytes.fromhex(op[1]), _dst(t, op[2]))
+                data = bytes.fromhex(op[1])
+                if len(op) > 3:
+                    if op[3] not in objs:
+                        o = {"bytes": data, "bytearray": bytearray(data), "memoryview": memoryview(bytearray(data))}[op[4]]
+                        objs[op[3]] = (o, data)
+                    m.gramit(objs[op[3]][0], _dst(t, op[2]))
+                else:
+                    m.gramit(data, _dst(t, op[2]))
             elif op[0] == "svc":
                 m.serviceTxGrams()
             elif op[0] == "once":
@@ -182,6 +220,7 @@ def run_impl(case):
             excs.append(exn_kind(ex))
     log = [[_undst(d), h, r] for d, h, r in m.ls.log]
     return {"excs": excs,
+            "objs_changed": sorted(k for k, (o, orig) in objs.items() if bytes(o) != orig),
             "log": log,
             "script_left_before": left,
             "opened": bool(m.opened),
@@ -213,6 +252,8 @@ def oracle(case, obs):
         return None
     if any(obs["excs"]):
         return f"exception escaped although the transport only blocked or reported unreachable: {obs['excs']}"
+    if obs.get("objs_changed"):
+        return f"the application's own gram objects {obs['objs_changed']} were modified by transmit servicing"
     queued = [(bytes.fromhex(o[1]), o[2]) for o in case["ops"] if o[0] == "gram"]
     i, off = 0, 0
     for n, (d, h, r) in enumerate(obs["log"]):
